@@ -40,7 +40,8 @@ def summarise(F, role):
 
 
 def _summarise(F, role):
-    path = (H.P_VER if role == "verifier" else H.P_PRV) + "flattened_constraints"
+    site = H.flatten_site(F, role)
+    path = site["path"]
     fn = F.fn(path)
     I = H.new_interp(F)
     Q = isym("Q")
@@ -183,7 +184,24 @@ def _summarise(F, role):
 
     I.hooks["loop"] = loop_hook
     zref = Sc(z)
-    ret = I.call_fn(path, [self, zref])
+    if site["style"] == "method":
+        call_args = [self, zref]
+    else:
+        # merged twins: a free function (constraints, z, sizes..).  Which size parameter is the gate count and which the
+        # commitment count is read off the role's real call site (recorded by the harness hook during the role run)
+        key = (id(F), role)
+        if key not in H.FLAT_INT_ROLES:
+            from . import analyses as AN
+
+            try:
+                (AN.prover_run if role == "prover" else AN.verifier_scalars)(F)
+            except Unanalysable:
+                pass
+        roles = H.FLAT_INT_ROLES.get(key)
+        if roles is None:
+            raise Unanalysable("the call of the shared flattening helper could not be located in the role's entry point")
+        call_args = [{"cons": cons, "z": zref, "n": IntV(n), "m": IntV(m)}[r_] for r_ in roles]
+    ret = I.call_fn(path, call_args)
     guards = [it for it in I.trace.items if it[0] == "guard"]
     subst = dict(I.all_subst)
     for ef in effects:
@@ -192,7 +210,7 @@ def _summarise(F, role):
     roots = {}
     for ef in effects:
         roots.setdefault(ef["root"], set()).add(ef["variant"])
-    return {"role": role, "inits": inits, "n": n, "m": m, "effects": effects, "guards": guards, "ret": ret, "inner": inner_info, "I": I, "roots": roots, "z": z, "Q": Q, "outer_stars": [it for it in I.trace.items if it[0] == "star"], "fn": fn}
+    return {"style": site["style"], "role": role, "inits": inits, "n": n, "m": m, "effects": effects, "guards": guards, "ret": ret, "inner": inner_info, "I": I, "roots": roots, "z": z, "Q": Q, "outer_stars": [it for it in I.trace.items if it[0] == "star"], "fn": fn}
 
 
 def reference(role):
@@ -237,6 +255,12 @@ def check(ck, F, role, rule):
             # only what the function hands back counts: an accumulator it computes and then drops (a shared helper that
             # also yields the verifier's constant weight) contributes to nothing
             kept = [e for e in efs if e["target"] in returned_targets(S)]
+            if S.get("style") == "free" and role == "prover" and name == "One":
+                # merged twins: the shared helper also yields the verifier's constant weight.  It must be a component of
+                # its own (none of the prover's four weights); the harness hands it to the prover poisoned, so any use of
+                # it by the prover stops the analysis
+                own = {e["target"] for v_ in ("MultiplierLeft", "MultiplierRight", "MultiplierOutput", "Committed") for e in by_variant.get(v_, [])}
+                kept = [e for e in kept if e["target"] in own]
             ck.require(not kept, rule, inst, f"variant {name} must not contribute to any weight ({role}), found {[(e['target'], str(e['delta'])) for e in kept]}", where)
     # distinct targets per variant, and the returned tuple is (L, R, O, V[, c]) in this order
     ret = S["ret"]
@@ -271,6 +295,8 @@ def check(ck, F, role, rule):
     # every weight is handed back exactly once.  (Which component the caller then uses for which role is decided
     # downstream: the harness hands the caller role-labelled vectors in the shape this function really returns.)
     leaves = return_roles(S)
+    if S.get("style") == "free" and role == "prover":
+        leaves = [r_ for r_ in leaves if r_ != "wc"]  # the shared helper's extra component (poisoned for the prover, see above)
     got_roles = sorted(r_ for r_ in leaves if r_ is not None)
     want_roles = sorted(ROLE_OF[v] for v in want)
     ck.require(got_roles == want_roles and None not in leaves, rule, f"{role}:return-order", f"the returned value must carry each weight exactly once ({want_roles}); its components are {leaves}", where)
